@@ -73,7 +73,7 @@ package ship
 //@   modifies c.handshakeTimerRunning
 
 // ---- everything a handshake step may touch ----
-//@ modset hs(c) := $decoded, c.smeState, c.smeError, c.handshakeTimerRunning, c.handshakeTimerType, c.lastReceivedWaitingValue, c.remoteShipID, c.dataReader, c.spineBuffer, c.shutdownOnce.$done, $Trusted[norm(c.remoteSKI)], c.$reports, c.$schedReports, c.$setup, $idReports[c.remoteSKI], $lastId[c.remoteSKI], c.$closeCalled, c.$closeScheduled, c.$everApproved, c.dataWriter.$wsClosed, c.dataWriter.$writes
+//@ modset hs(c) := $decoded, Reader.$delivLen, Reader.$deliv, c.smeState, c.smeError, c.handshakeTimerRunning, c.handshakeTimerType, c.lastReceivedWaitingValue, c.remoteShipID, c.dataReader, c.spineBuffer, c.shutdownOnce.$done, $Trusted[norm(c.remoteSKI)], c.$reports, c.$schedReports, c.$setup, $idReports[c.remoteSKI], $lastId[c.remoteSKI], c.$closeCalled, c.$closeScheduled, c.$everApproved, c.dataWriter.$wsClosed, c.dataWriter.$writes
 //@ modset er(c) := @cl(c), c.smeState, c.smeError, c.handshakeTimerType, $Trusted[norm(c.remoteSKI)]
 //@ modset cl(c) := c.handshakeTimerRunning, c.shutdownOnce.$done, c.$reports, c.$schedReports, c.$closeCalled, c.$closeScheduled, c.dataWriter.$wsClosed, c.dataWriter.$writes
 
@@ -101,10 +101,15 @@ package ship
 //@ macro REP(c) := (c.$reports + c.$schedReports)
 //@ macro F1STEP(c) := (@REP(c) == old(@REP(c)) + ite(c.shutdownOnce.$done && !old(c.shutdownOnce.$done), 1, 0) && (old(c.shutdownOnce.$done) ==> c.shutdownOnce.$done))
 //@ objinv (c *ShipConnection) [C11] F1-once: @REP(c) == ite(c.shutdownOnce.$done, 1, 0)
+// SPINE delivery (C06): payloads that arrive before completion wait in spineBuffer, in arrival order; once a
+// data reader is installed the buffer is empty and stays empty, so later payloads cannot overtake earlier ones
+//@ objinv (c *ShipConnection) [C06] B1-drained: c.dataReader != nil ==> len(c.spineBuffer) == 0
+//@ macro PAYLOAD() := cast($decoded, model.ShipData).Data.Payload
+//@ macro BUFKEEP(c) := ((c.dataReader == nil ==> c.spineBuffer == old(c.spineBuffer)) && (old(c.dataReader) != nil ==> c.dataReader != nil))
 // ---- shorthand ----
 //@ macro TINV(c) := tinv(c.smeState, c.handshakeTimerRunning, c.shutdownOnce.$done)
 //@ macro CLOSEOK(c) := closeOK(c.smeState, c.shutdownOnce.$done, c.$closeScheduled)
-//@ macro READER(c) := (c.dataReader != nil ==> c.smeState == model.SmeStateComplete || c.smeState == model.SmeStateError)
+//@ macro READER(c) := ((c.dataReader != nil ==> c.smeState == model.SmeStateComplete || c.smeState == model.SmeStateError) && (c.dataReader != nil ==> len(c.spineBuffer) == 0))
 //@ macro QUIET(c) := c.shutdownOnce.$done == old(c.shutdownOnce.$done) && c.handshakeTimerRunning == old(c.handshakeTimerRunning) && c.$closeScheduled == old(c.$closeScheduled)
 
 // ---- sending ----
@@ -166,6 +171,7 @@ package ship
 //@   ensures old(c.$closeScheduled) ==> c.$closeScheduled
 //@   ensures @READER(c)
 //@   ensures [C11] F1-step: @F1STEP(c)
+//@   ensures [C06] B8-keep: @BUFKEEP(c)
 //@   modifies @er(c)
 //@ func (c *ShipConnection).abortProtocolHandshake(err) [C04]
 //@   requires !terminal(c.smeState)
@@ -174,6 +180,7 @@ package ship
 //@   ensures old(c.$closeScheduled) ==> c.$closeScheduled
 //@   ensures @READER(c)
 //@   ensures [C11] F1-step: @F1STEP(c)
+//@   ensures [C06] B8-keep: @BUFKEEP(c)
 //@   modifies @er(c)
 
 // ---- dispatch ----
@@ -188,6 +195,7 @@ package ship
 //@   ensures @DMODE(c)
 //@   ensures [C01] G4-reader: @READER(c)
 //@   ensures [C11] F1-step: @F1STEP(c)
+//@   ensures [C06] B8-keep: @BUFKEEP(c)
 //@   modifies @hs(c)
 //@ closure (c *ShipConnection).handleState$1 [C04]
 //@   spawns c.$closeScheduled
@@ -207,6 +215,7 @@ package ship
 //@   ensures @DMODE(c)
 //@   ensures [C01] G4-reader: @READER(c)
 //@   ensures [C11] F1-step: @F1STEP(c)
+//@   ensures [C06] B8-keep: @BUFKEEP(c)
 //@   modifies @hs(c)
 //@ func (c *ShipConnection).handleShipMessage(timeout, message) [C04,C01]
 //@   requires roleOK(c.role, c.smeState)
@@ -216,6 +225,7 @@ package ship
 //@   ensures [C04] E6-closed: @CLOSEOK(c)
 //@   ensures [C01] G4-reader: @READER(c)
 //@   ensures [C11] F1-step: @F1STEP(c)
+//@   ensures [C06] B8-keep: @BUFKEEP(c)
 //@   modifies @hs(c)
 
 // ---- handlers (one per state) ----
@@ -229,6 +239,7 @@ package ship
 //@   ensures @DMODE(c)
 //@   ensures [C01] G4-reader: @READER(c)
 //@   ensures [C11] F1-step: @F1STEP(c)
+//@   ensures [C06] B8-keep: @BUFKEEP(c)
 //@   modifies @hs(c)
 //@ func (c *ShipConnection).handshakeInit_cmiStateServerWait(message) [C04]
 //@   decreases rank(c.role, c.smeState), len(message), 1
@@ -240,6 +251,7 @@ package ship
 //@   ensures @DMODE(c)
 //@   ensures [C01] G4-reader: @READER(c)
 //@   ensures [C11] F1-step: @F1STEP(c)
+//@   ensures [C06] B8-keep: @BUFKEEP(c)
 //@   modifies @hs(c)
 //@ func (c *ShipConnection).handshakeInit_cmiStateClientWait(message) [C04]
 //@   decreases rank(c.role, c.smeState), len(message), 1
@@ -251,6 +263,7 @@ package ship
 //@   ensures @DMODE(c)
 //@   ensures [C01] G4-reader: @READER(c)
 //@   ensures [C11] F1-step: @F1STEP(c)
+//@   ensures [C06] B8-keep: @BUFKEEP(c)
 //@   modifies @hs(c)
 //@ func (c *ShipConnection).handshakeHello_Init() [C04,C01]
 //@   decreases rank(c.role, c.smeState), 0, 1
@@ -262,6 +275,7 @@ package ship
 //@   ensures @DMODE(c)
 //@   ensures [C01] G4-reader: @READER(c)
 //@   ensures [C11] F1-step: @F1STEP(c)
+//@   ensures [C06] B8-keep: @BUFKEEP(c)
 //@   modifies @hs(c)
 //@ func (c *ShipConnection).handshakeHello_ReadyListen(timeout, message) [C04,C01]
 //@   decreases rank(c.role, c.smeState), len(message), 1
@@ -273,6 +287,7 @@ package ship
 //@   ensures @DMODE(c)
 //@   ensures [C01] G4-reader: @READER(c)
 //@   ensures [C11] F1-step: @F1STEP(c)
+//@   ensures [C06] B8-keep: @BUFKEEP(c)
 //@   modifies @hs(c)
 //@ func (c *ShipConnection).handshakeHello_ReadyTimeout() [C04]
 //@   decreases rank(c.role, c.smeState), 0, 0
@@ -284,6 +299,7 @@ package ship
 //@   ensures @DMODE(c)
 //@   ensures [C01] G4-reader: @READER(c)
 //@   ensures [C11] F1-step: @F1STEP(c)
+//@   ensures [C06] B8-keep: @BUFKEEP(c)
 //@   modifies @hs(c)
 //@ func (c *ShipConnection).handshakeHello_Abort() [C04]
 //@   decreases rank(c.role, c.smeState), 0, 1
@@ -295,6 +311,7 @@ package ship
 //@   ensures @DMODE(c)
 //@   ensures [C01] G4-reader: @READER(c)
 //@   ensures [C11] F1-step: @F1STEP(c)
+//@   ensures [C06] B8-keep: @BUFKEEP(c)
 //@   modifies @hs(c)
 //@ func (c *ShipConnection).handshakeHello_PendingInit() [C04,C01]
 //@   decreases rank(c.role, c.smeState), 0, 1
@@ -306,6 +323,7 @@ package ship
 //@   ensures @DMODE(c)
 //@   ensures [C01] G4-reader: @READER(c)
 //@   ensures [C11] F1-step: @F1STEP(c)
+//@   ensures [C06] B8-keep: @BUFKEEP(c)
 //@   modifies @hs(c)
 //@ func (c *ShipConnection).handshakeHello_PendingListen(timeout, message) [C04,C01]
 //@   decreases rank(c.role, c.smeState), len(message), 1
@@ -317,6 +335,7 @@ package ship
 //@   ensures @DMODE(c)
 //@   ensures [C01] G4-reader: @READER(c)
 //@   ensures [C11] F1-step: @F1STEP(c)
+//@   ensures [C06] B8-keep: @BUFKEEP(c)
 //@   modifies @hs(c)
 //@ func (c *ShipConnection).handshakeHello_PendingProlongationRequest() [C04]
 //@   decreases rank(c.role, c.smeState), 0, 0
@@ -328,6 +347,7 @@ package ship
 //@   ensures @DMODE(c)
 //@   ensures [C01] G4-reader: @READER(c)
 //@   ensures [C11] F1-step: @F1STEP(c)
+//@   ensures [C06] B8-keep: @BUFKEEP(c)
 //@   modifies @hs(c)
 //@ func (c *ShipConnection).handshakeHello_PendingTimeout() [C04]
 //@   decreases rank(c.role, c.smeState), 0, 0
@@ -339,6 +359,7 @@ package ship
 //@   ensures @DMODE(c)
 //@   ensures [C01] G4-reader: @READER(c)
 //@   ensures [C11] F1-step: @F1STEP(c)
+//@   ensures [C06] B8-keep: @BUFKEEP(c)
 //@   modifies @hs(c)
 //@ func (c *ShipConnection).handshakeProtocol_Init() [C04]
 //@   decreases rank(c.role, c.smeState), 0, 1
@@ -350,6 +371,7 @@ package ship
 //@   ensures @DMODE(c)
 //@   ensures [C01] G4-reader: @READER(c)
 //@   ensures [C11] F1-step: @F1STEP(c)
+//@   ensures [C06] B8-keep: @BUFKEEP(c)
 //@   modifies @hs(c)
 //@ func (c *ShipConnection).handshakeProtocol_smeProtHStateServerListenProposal(message) [C04]
 //@   decreases rank(c.role, c.smeState), len(message), 1
@@ -361,6 +383,7 @@ package ship
 //@   ensures @DMODE(c)
 //@   ensures [C01] G4-reader: @READER(c)
 //@   ensures [C11] F1-step: @F1STEP(c)
+//@   ensures [C06] B8-keep: @BUFKEEP(c)
 //@   modifies @hs(c)
 //@ func (c *ShipConnection).handshakeProtocol_smeProtHStateServerListenConfirm(message) [C04]
 //@   decreases rank(c.role, c.smeState), len(message), 1
@@ -372,6 +395,7 @@ package ship
 //@   ensures @DMODE(c)
 //@   ensures [C01] G4-reader: @READER(c)
 //@   ensures [C11] F1-step: @F1STEP(c)
+//@   ensures [C06] B8-keep: @BUFKEEP(c)
 //@   modifies @hs(c)
 //@ func (c *ShipConnection).handshakeProtocol_smeProtHStateClientInit() [C04]
 //@   decreases rank(c.role, c.smeState), 0, 0
@@ -383,6 +407,7 @@ package ship
 //@   ensures @DMODE(c)
 //@   ensures [C01] G4-reader: @READER(c)
 //@   ensures [C11] F1-step: @F1STEP(c)
+//@   ensures [C06] B8-keep: @BUFKEEP(c)
 //@   modifies @hs(c)
 //@ func (c *ShipConnection).handshakeProtocol_smeProtHStateClientListenChoice(message) [C04]
 //@   decreases rank(c.role, c.smeState), len(message), 1
@@ -394,6 +419,7 @@ package ship
 //@   ensures @DMODE(c)
 //@   ensures [C01] G4-reader: @READER(c)
 //@   ensures [C11] F1-step: @F1STEP(c)
+//@   ensures [C06] B8-keep: @BUFKEEP(c)
 //@   modifies @hs(c)
 //@ func (c *ShipConnection).handshakePin_Init() [C04]
 //@   decreases rank(c.role, c.smeState), 0, 1
@@ -405,6 +431,7 @@ package ship
 //@   ensures @DMODE(c)
 //@   ensures [C01] G4-reader: @READER(c)
 //@   ensures [C11] F1-step: @F1STEP(c)
+//@   ensures [C06] B8-keep: @BUFKEEP(c)
 //@   modifies @hs(c)
 //@ func (c *ShipConnection).handshakePin_smePinStateCheckListen(message) [C04]
 //@   decreases rank(c.role, c.smeState), len(message), 1
@@ -416,6 +443,7 @@ package ship
 //@   ensures @DMODE(c)
 //@   ensures [C01] G4-reader: @READER(c)
 //@   ensures [C11] F1-step: @F1STEP(c)
+//@   ensures [C06] B8-keep: @BUFKEEP(c)
 //@   modifies @hs(c)
 //@ func (c *ShipConnection).handshakeAccessMethods_Init() [C04]
 //@   decreases rank(c.role, c.smeState), 0, 1
@@ -427,6 +455,7 @@ package ship
 //@   ensures @DMODE(c)
 //@   ensures [C01] G4-reader: @READER(c)
 //@   ensures [C11] F1-step: @F1STEP(c)
+//@   ensures [C06] B8-keep: @BUFKEEP(c)
 //@   modifies @hs(c)
 //@ func (c *ShipConnection).handshakeInit_cmiStateEvaluate(message) [C04]
 //@   decreases rank(c.role, c.smeState), len(message), 0
@@ -439,6 +468,7 @@ package ship
 //@   ensures [C04] E6-closed: @CLOSEOK(c)
 //@   ensures @READER(c)
 //@   ensures [C11] F1-step: @F1STEP(c)
+//@   ensures [C06] B8-keep: @BUFKEEP(c)
 //@   modifies @hs(c)
 
 // ---- access methods: SHIP ID pinning (C09) and approval (C01) ----
@@ -460,6 +490,7 @@ package ship
 //@   ensures [C09] P5-mismatch: c.smeState == model.SmeStateApproved ==> false
 //@   atcall ReportServiceShipID [C09] P3-order: c.$setup == old(c.$setup)
 //@   ensures [C11] F1-step: @F1STEP(c)
+//@   ensures [C06] B8-keep: @BUFKEEP(c)
 //@   modifies @hs(c)
 //@ iface api.ShipConnectionInfoProviderInterface.SetupRemoteDevice(ski, writeI)
 //@   requires [C01] G3-setup: cast(writeI, ShipConnection).smeState == model.SmeStateApproved && ski == cast(writeI, ShipConnection).remoteSKI
@@ -470,16 +501,25 @@ package ship
 //@   requires c.smeState == model.SmeStateApproved && roleOK(c.role, c.smeState)
 //@   requires @TINV(c) && @CLOSEOK(c) && !c.shutdownOnce.$done
 //@   ensures c.smeState == model.SmeStateComplete && c.dataReader != nil
+//@   ensures [C06] B5-first: len(c.spineBuffer) == 0
 //@   ensures c.$setup == old(c.$setup) + 1
 //@   ensures $idReports[c.remoteSKI] == old($idReports[c.remoteSKI]) && $lastId[c.remoteSKI] == old($lastId[c.remoteSKI]) && c.remoteShipID == old(c.remoteShipID)
 //@   ensures [C04] E4-timer: @TINV(c)
 //@   ensures [C04] E6-closed: @CLOSEOK(c)
 //@   ensures @DMODE(c)
-//@   modifies c.dataReader, c.$setup, c.spineBuffer, c.smeState, c.smeError, c.handshakeTimerRunning, c.handshakeTimerType, $Trusted[norm(c.remoteSKI)]
-//@ func (c *ShipConnection).processBufferedSpineMessages() [C01]
+//@   modifies c.dataReader, c.$setup, c.spineBuffer, c.smeState, c.smeError, c.handshakeTimerRunning, c.handshakeTimerType, $Trusted[norm(c.remoteSKI)], Reader.$delivLen, Reader.$deliv
+//@ func (c *ShipConnection).processBufferedSpineMessages() [C01,C06]
 //@   requires c.dataReader != nil && c.smeState == model.SmeStateComplete
 //@   atcall HandleShipPayloadMessage [C01] G4-deliver: c.smeState == model.SmeStateComplete
-//@   modifies c.spineBuffer
+//@   ensures [C06] B2-flushed: len(c.spineBuffer) == 0
+//@   ensures [C06] B3-inorder: c.dataReader.$delivLen == old(c.dataReader.$delivLen) + old(len(c.spineBuffer)) && (forall i: int :: 0 <= i && i < old(len(c.spineBuffer)) ==> c.dataReader.$deliv[old(c.dataReader.$delivLen) + i] == old(c.spineBuffer)[i])
+//@   ensures [C06] B4-kept: forall i: int :: 0 <= i && i < old(c.dataReader.$delivLen) ==> c.dataReader.$deliv[i] == old(c.dataReader.$deliv[i])
+//@   modifies c.spineBuffer, c.dataReader.$delivLen, c.dataReader.$deliv
+//@ loop (c *ShipConnection).processBufferedSpineMessages #0
+//@   invariant c.dataReader != nil && c.smeState == model.SmeStateComplete && c.spineBuffer == old(c.spineBuffer) && c.dataReader == old(c.dataReader)
+//@   invariant c.dataReader.$delivLen == old(c.dataReader.$delivLen) + rangeindex + 1
+//@   invariant forall i: int :: 0 <= i && i <= rangeindex ==> c.dataReader.$deliv[old(c.dataReader.$delivLen) + i] == old(c.spineBuffer)[i]
+//@   invariant forall i: int :: 0 <= i && i < old(c.dataReader.$delivLen) ==> c.dataReader.$deliv[i] == old(c.dataReader.$deliv[i])
 
 // ---- entry points (object invariants assumed at entry and proved at exit) ----
 // Assume/guarantee with the websocket layer (C13) and the timer (C14): no message and no timeout is
@@ -488,28 +528,34 @@ package ship
 //@ func (c *ShipConnection).Run() entry [C04]
 //@   requires !c.shutdownOnce.$done
 //@   ensures [C11] F1-step: @F1STEP(c)
+//@   ensures [C06] B8-keep: @BUFKEEP(c)
 //@   modifies @hs(c)
 //@ func (c *ShipConnection).ApprovePendingHandshake() entry [C04,C01]
 //@   requires [C01] G0-approved: $Trusted[norm(c.remoteSKI)]
 //@   requires !c.shutdownOnce.$done
 //@   ensures [C04] E3-step: stepOK(c.role, old(c.smeState), c.smeState)
 //@   ensures [C11] F1-step: @F1STEP(c)
+//@   ensures [C06] B8-keep: @BUFKEEP(c)
 //@   modifies @hs(c)
 //@ func (c *ShipConnection).AbortPendingHandshake() entry [C04,C10]
 //@   requires !c.shutdownOnce.$done
 //@   ensures [C04] E3-step: stepOK(c.role, old(c.smeState), c.smeState)
 //@   ensures [C10,C01] D3-abort: old(c.smeState) == model.SmeHelloStatePendingListen || old(c.smeState) == model.SmeHelloStateReadyListen ==> terminal(c.smeState)
 //@   ensures [C11] F1-step: @F1STEP(c)
+//@   ensures [C06] B8-keep: @BUFKEEP(c)
 //@   modifies @hs(c)
 //@ func (c *ShipConnection).ReportConnectionError(err) entry [C04,C13]
 //@   ensures [C04] E3-step: stepOK(c.role, old(c.smeState), c.smeState)
 //@   ensures [C13] T5-closed: c.shutdownOnce.$done
 //@   ensures [C11] F1-step: @F1STEP(c)
+//@   ensures [C06] B8-keep: @BUFKEEP(c)
 //@   modifies @hs(c)
 //@ func (c *ShipConnection).HandleIncomingWebsocketMessage(message) entry [C04,C01,C06]
 //@   requires !c.shutdownOnce.$done
 //@   ensures [C04] E3-step: stepOK(c.role, old(c.smeState), c.smeState)
 //@   atcall HandleShipPayloadMessage [C01] G4-deliver: c.smeState == model.SmeStateComplete || c.smeState == model.SmeStateError
+//@   atcall HandleShipPayloadMessage [C06] B6-direct: $0 == @PAYLOAD() && old(c.dataReader) != nil && len(c.spineBuffer) == 0
+//@   ensures [C06] B7-buffered: old(c.dataReader) == nil && c.dataReader == nil ==> len(c.spineBuffer) == old(len(c.spineBuffer)) || (len(c.spineBuffer) == old(len(c.spineBuffer)) + 1 && c.spineBuffer[old(len(c.spineBuffer))] == @PAYLOAD() && (forall i: int :: 0 <= i && i < old(len(c.spineBuffer)) ==> c.spineBuffer[i] == old(c.spineBuffer)[i]))
 //@   ensures [C11] F1-step: @F1STEP(c)
 //@   modifies @hs(c)
 //@ closure (c *ShipConnection).setHandshakeTimer$1 [C04]
@@ -519,9 +565,10 @@ package ship
 //@   ensures [C04] E4-timer: @TINV(c)
 //@   ensures [C04] E6-closed: @CLOSEOK(c)
 //@   ensures [C11] F1-step: @F1STEP(c)
+//@   ensures [C06] B8-keep: @BUFKEEP(c)
 //@   modifies @hs(c)
 //@ func (c *ShipConnection).shipModelFromMessage(message)
-//@   ensures result.1 == nil ==> result.0 != nil
+//@   ensures result.1 == nil ==> result.0 != nil && ref(result.0) == $decoded
 //@   modifies $decoded
 
 // C01-G2 / C04-E7: the state and the data reader have exactly one writer each
